@@ -153,6 +153,22 @@ def obligations(tier, rng):
     for d, m in [(('eventually_t', X, 0, 1), ('and', P, ('eventually_t', Y, 0, 3))), (('next', X), ('or', P, ('always_t', Y, 1, 2))),
                  (('once_t', X, 0, 1), ('and', P, ('eventually_t', Y, 0, 2)))]:
         out.append(ob('C12', 'dt', 'dt/pastified/horizons/p=%s/out=%s' % (text(d), text(m)), defs=[['p', d]], main=m, N=N + 2, mode='pastified'))
+    if not quick:
+        # seeded random definitions (depth 2 over x,y) referenced by seeded random formulas (depth 2 over p,z)
+        rops = ['not', 'and', 'or', 'implies', 'once', 'historically', 'prev', 'rise', 'since', 'once_t', 'historically_t', 'since_t', 'geq', 'abs', 'sub',
+                'eventually_t', 'always_t', 'until_t', 'next']
+        k = 0
+        while k < 300:
+            d = refsem.gen_formula(rng, 2, rops, [(0, 1), (1, 2)], ('x', 'y'))
+            m = refsem.gen_formula(rng, 2, rops, [(0, 1), (1, 2)], ('p', 'z'))
+            if 'p' not in variables(m) or d[0] in ('var', 'const'):
+                continue
+            k += 1
+            fut = refsem.has_future(d) or refsem.has_future(m)
+            if fut and hor(inline(m, {'p': d})) > 6:
+                continue
+            for mode in ['offline'] + (['pastified'] if fut else ['online']):
+                out.append(ob('C12', 'dt', 'dt/%s/random%d/p=%s/out=%s' % (mode, k, text(d), text(m)), defs=[['p', d]], main=m, N=6, mode=mode))
     ddefs = [('once_t', X, 0, 1), ('once', X), ('not', X), ('since', X, Y), ('geq', X, ('const', 1.5))]
     dmains = [('not', P), ('or', P, ('once', P)), ('and', P, P)]
     for d in ddefs:
